@@ -174,7 +174,7 @@ func init() {
 		"verifUnpack": prim_verifUnpack,
 		"verifPrint": func(fr *frame, args []value) value {
 			if fr.i.run.opts.Trace || fr.i.run.opts.Concrete != nil {
-				fmt.Fprintln(os.Stderr, "verifPrint:", toString(args[0]))
+				fmt.Fprintln(os.Stderr, "verifPrint:", toString(args[0]), " lastPanic:", fr.i.res.lastPanicSite)
 			}
 			return nil
 		},
@@ -221,8 +221,7 @@ func (i *interpreter) doAssert(fr *frame, c value, label string) {
 			return
 		}
 		ob.Result = "concrete-false"
-		i.res.Obligations = append(i.res.Obligations, ob)
-		// the path condition is feasible; get a model for it
+		// is the path condition really feasible? get a model for it
 		m := i.model
 		if m == nil && i.run.opts.Concrete == nil {
 			r := i.solve(i.pc, i.run.opts.AssertMs)
@@ -231,6 +230,7 @@ func (i *interpreter) doAssert(fr *frame, c value, label string) {
 			}
 			m = r.Model
 		}
+		i.res.Obligations = append(i.res.Obligations, ob)
 		i.res.Violations = append(i.res.Violations, Violation{Harness: i.run.fn.Name(), Label: label, Site: site, Model: i.fullModel(m), Path: decisionString(i.decisions), Kind: "assert"})
 		panic(abort{"violation", label})
 	case symBool:
